@@ -16,6 +16,7 @@ mod dict;
 mod recoder;
 mod hasher;
 mod huff;
+mod metablock;
 
 fn main() {
     let args = util::parse_args();
@@ -34,6 +35,7 @@ fn main() {
         "recoder" => recoder::run_cmd(&args),
         "hasher" => hasher::run_cmd(&args),
         "huff" => huff::run_cmd(&args),
+        "metablock" => metablock::run_cmd(&args),
         "concat1" => concat::run_one(&args),
         other => {
             eprintln!("unknown subcommand {}", other);
